@@ -35,6 +35,7 @@ def run(ck):
     ck.rule("C13.R4", "writer combinators route as their definition denotes", floor=9)
     ck.rule("C13.R11", "every span in scope is written with its fields: the only reason not to write a span's stored fields is that there are none", floor=3)
     ck.rule("C13.R12", "the set of configured span lifecycle points is what the user's expression denotes: FmtSpan's operators compute the operator they are named after", floor=6)
+    ck.rule("C13.R13", "a span's formatted fields accumulate: handing out the writer over them and recording further values never discards what is already there", floor=3)
     ck.rule("C13.R10", "every field a formatter's visitor is handed ends up in the record: no record_* path drops a field (except after an earlier write error)", floor=4)
     ck.rule("C13.R9", "formatter options have the polarity of their name: nothing is written because a display_* flag is off", floor=4)
     ck.rule("C13.R8", "a formatting panic the caller caught does not silence the thread: get_default's re-entrancy flag is given back on unwinding (as C02.R6)", floor=3)
@@ -54,6 +55,7 @@ def run(ck):
     r11(ck, F)
     r12(ck, F)
     r12b(ck, F)
+    r13(ck, F)
     from rules import C02
     C02.r6(ck, F, rid="C13.R8")
 
@@ -495,6 +497,36 @@ def r12b(ck, F):
             ck.ok("C13.R12", key, fn=b.path)
         else:
             ck.bad("C13.R12", key, where(b.raw["sp"]), "trace_%s returns %s" % (pt, rets), fn=b.path)
+
+
+def r13(ck, F):
+    """`every span in scope ... with its fields`, also those recorded after creation: FormattedFields::as_writer is a
+    view (it wraps `&mut self.fields`, nothing else), and the appending add_fields implementations (the trait default
+    used by full/compact, and Pretty's) only ever push onto the stored text."""
+    SHRINK = ("clear", "truncate", "drain", "pop", "remove", "replace_range", "retain", "take", "split_off")
+    aw = F.body("tracing_subscriber::fmt::fmt_subscriber::FormattedFields::<E>::as_writer")
+    if ck.anchor("C13.R13", "FormattedFields::as_writer", aw):
+        calls = [t["callee"].get("method") for bb, t in aw.calls()]
+        writes = [1 for i, j, st in aw.stmts() if st["k"] == "assign" and any(isinstance(x, dict) and x.get("n") == "fields" for x in st["lhs"].get("p", []))]
+        key = "FormattedFields::as_writer only wraps the stored text"
+        if set(calls) <= {"new", "with_ansi"} and not writes:
+            ck.ok("C13.R13", key, fn=aw.path)
+        else:
+            ck.bad("C13.R13", key, where(aw.raw["sp"]), "as_writer calls %s%s: fields formatted earlier (at span creation, by an earlier record) are gone from every later line"
+                   % (sorted(set(calls) - {"new", "with_ansi"}), " and assigns to .fields" if writes else ""), fn=aw.path)
+    for path, nm in (("tracing_subscriber::fmt::format::FormatFields::add_fields", "FormatFields::add_fields (provided)"),
+                     ("<tracing_subscriber::fmt::format::pretty::Pretty as tracing_subscriber::fmt::format::FormatFields<'writer>>::add_fields", "Pretty::add_fields")):
+        b = F.body(path)
+        if not ck.anchor("C13.R13", nm, b):
+            continue
+        key = "%s appends to the span's formatted fields" % nm
+        shrink = [t["callee"].get("method") for bb, t in b.calls() if t["callee"].get("method") in SHRINK]
+        assigns = [1 for i, j, st in b.stmts() if st["k"] == "assign" and any(isinstance(x, dict) and x.get("n") == "fields" for x in st["lhs"].get("p", []))
+                   and not ("agg" in st.get("rv", {}))]
+        if shrink or assigns:
+            ck.bad("C13.R13", key, where(b.raw["sp"]), "the stored text is shortened or replaced (%s)" % (shrink or "assignment to .fields"), fn=b.path)
+        else:
+            ck.ok("C13.R13", key, fn=b.path)
 
 
 def r11(ck, F):
